@@ -1,8 +1,1938 @@
-//! C15 – not implemented yet.
-use mvlib::Ctx;
-use serde_json::Value;
+//! C15 – rename is behaviour-preserving and complete;
+//! C16 – go-to-definition / find-references / document highlights agree with the assembler's scoping.
+//!
+//! Both properties share one *program catalogue* (bounded, enumerated completely):
+//!
+//! * base programs: three nesting levels `root`, `s1: {`, `s2: {` (inside s1), each defining or not
+//!   defining `a` as a label or as a constant (27 combinations, every definition with a distinct
+//!   value: constants 11/22/33, labels tagged with a unique byte so their address can be read off
+//!   the output), one *main use* `.word <path>` at one of the three levels written as one of
+//!   {`a`, `super.a`, `super.super.a`, `s1.a`, `s1.s2.a`}, optionally wrapped in {invoked macro,
+//!   NOT invoked macro, `.if 1`, `.if 0`, `.text "{path}"`, `.loop 2`, `.loop 2` with an own label
+//!   `a` in the body}; the unwrapped use in two statement orders (definitions before / after the
+//!   uses); every defining level additionally has a local use `.word a` next to the definition.
+//! * import programs over `main.asm` + `other.asm`: `.import * from`, `.import a from`,
+//!   `.import a as b from`, `.import * as ns from` (use `ns.a`), the same file imported twice
+//!   under two namespaces, a block imported by name (`.import o1 from`, use `o1.a`) × kind of the
+//!   imported `a` × own `a` in `s1` (none/label/const) × use level × (`name` | `super.name`)
+//!   × wrapper; the unwrapped use with the import before / after the use.
+//! * every program contains `// a`, `/* a */`, `.text "a"` (and `"other.asm"`) which no edit may
+//!   touch, and a sibling scope `sib: { .const q = 44 }` (`q` is the "name of another scope").
+//!
+//! Only programs for which a FRESH server publishes no diagnostics are in scope.
+//!
+//! Oracle for "which definition does the build use": every use is emitted between two marker
+//! byte pairs, so the assembled bytes (own in-process `mos_core` parse + codegen with the
+//! server's options) contain the value that was used; definitions have pairwise distinct values.
+//! No resolver is re-implemented here.
 
-pub fn run(_ctx: &Ctx, _replay: Option<&Value>) -> i32 {
-    eprintln!("C15: engine not implemented yet");
-    2
+use crate::lspdrv::{pos_params, uri, Death, Server};
+use mos_core::codegen::{codegen, CodegenOptions};
+use mos_core::parser::parse;
+use mos_core::parser::source::InMemoryParsingSource;
+use mvlib::panics::{guard, PanicInfo};
+use mvlib::{fnv_str, Ctx, Finding};
+use rayon::prelude::*;
+use serde_json::{json, Value};
+use std::collections::{BTreeMap, BTreeSet};
+use std::path::Path;
+
+// ------------------------------------------------------------------------------------------
+// catalogue
+// ------------------------------------------------------------------------------------------
+
+#[derive(Clone, Copy, Debug, PartialEq, Eq)]
+pub enum Kind {
+    N,
+    L,
+    C,
+}
+
+impl Kind {
+    fn ch(self) -> char {
+        match self {
+            Kind::N => 'N',
+            Kind::L => 'L',
+            Kind::C => 'C',
+        }
+    }
+    fn from_ch(c: char) -> Kind {
+        match c {
+            'L' => Kind::L,
+            'C' => Kind::C,
+            _ => Kind::N,
+        }
+    }
+}
+
+const WRAPS: [&str; 8] = ["none", "macro", "macro-uninvoked", "if1", "if0", "interp", "loop", "loopdef"];
+const FORMS: [&str; 5] = ["a", "super.a", "super.super.a", "s1.a", "s1.s2.a"];
+const LEVELS: [&str; 3] = ["root", "s1", "s2"];
+const IMPORTS: [&str; 6] = ["star", "named", "alias", "ns", "twice", "block"];
+
+#[derive(Clone, Debug, PartialEq, Eq)]
+pub enum Spec {
+    Base {
+        kinds: [Kind; 3],
+        ulevel: usize,
+        form: usize,
+        wrap: usize,
+        use_first: bool,
+    },
+    Import {
+        imp: usize,
+        okind: Kind,
+        s1kind: Kind,
+        ulevel: usize,
+        sup: bool,
+        wrap: usize,
+        import_last: bool,
+    },
+}
+
+impl Spec {
+    fn to_json(&self) -> Value {
+        match self {
+            Spec::Base { kinds, ulevel, form, wrap, use_first } => json!({
+                "catalogue": "base",
+                "kinds": kinds.iter().map(|k| k.ch()).collect::<String>(),
+                "use_level": ulevel, "form": FORMS[*form], "wrap": WRAPS[*wrap], "use_first": use_first,
+            }),
+            Spec::Import { imp, okind, s1kind, ulevel, sup, wrap, import_last } => json!({
+                "catalogue": "import",
+                "import": IMPORTS[*imp], "other_kind": okind.ch().to_string(), "s1_kind": s1kind.ch().to_string(),
+                "use_level": ulevel, "super": sup, "wrap": WRAPS[*wrap], "import_last": import_last,
+            }),
+        }
+    }
+
+    fn from_json(v: &Value) -> Option<Spec> {
+        let wrap = WRAPS.iter().position(|w| Some(*w) == v["wrap"].as_str())?;
+        let ulevel = v["use_level"].as_u64()? as usize;
+        match v["catalogue"].as_str()? {
+            "base" => {
+                let k: Vec<char> = v["kinds"].as_str()?.chars().collect();
+                if k.len() != 3 {
+                    return None;
+                }
+                Some(Spec::Base {
+                    kinds: [Kind::from_ch(k[0]), Kind::from_ch(k[1]), Kind::from_ch(k[2])],
+                    ulevel,
+                    form: FORMS.iter().position(|f| Some(*f) == v["form"].as_str())?,
+                    wrap,
+                    use_first: v["use_first"].as_bool()?,
+                })
+            }
+            "import" => Some(Spec::Import {
+                imp: IMPORTS.iter().position(|f| Some(*f) == v["import"].as_str())?,
+                okind: Kind::from_ch(v["other_kind"].as_str()?.chars().next()?),
+                s1kind: Kind::from_ch(v["s1_kind"].as_str()?.chars().next()?),
+                ulevel,
+                sup: v["super"].as_bool()?,
+                wrap,
+                import_last: v["import_last"].as_bool()?,
+            }),
+            _ => None,
+        }
+    }
+}
+
+pub fn catalogue(thorough: bool) -> Vec<Spec> {
+    let wraps: Vec<usize> = if thorough { (0..WRAPS.len()).collect() } else { vec![0] };
+    let kinds = [Kind::N, Kind::L, Kind::C];
+    let mut out = vec![];
+    for k0 in kinds {
+        for k1 in kinds {
+            for k2 in kinds {
+                for ulevel in 0..3 {
+                    for form in 0..FORMS.len() {
+                        for &wrap in &wraps {
+                            for use_first in [false, true] {
+                                // the second statement order is combined with the plain use only
+                                if use_first && wrap != 0 {
+                                    continue;
+                                }
+                                out.push(Spec::Base { kinds: [k0, k1, k2], ulevel, form, wrap, use_first });
+                            }
+                        }
+                    }
+                }
+            }
+        }
+    }
+    for imp in 0..IMPORTS.len() {
+        for okind in [Kind::L, Kind::C] {
+            for s1kind in kinds {
+                for (ulevel, sup) in [(0, false), (1, false), (1, true)] {
+                    for &wrap in &wraps {
+                        for import_last in [false, true] {
+                            if import_last && wrap != 0 {
+                                continue;
+                            }
+                            out.push(Spec::Import { imp, okind, s1kind, ulevel, sup, wrap, import_last });
+                        }
+                    }
+                }
+            }
+        }
+    }
+    out
+}
+
+// ------------------------------------------------------------------------------------------
+// program model: text + every identifier occurrence + every definition
+// ------------------------------------------------------------------------------------------
+
+#[derive(Clone, Debug)]
+pub struct Def {
+    pub file: usize,
+    pub line: u32,
+    pub c0: u32,
+    pub c1: u32,
+    pub name: String,
+    /// root | s1 | s2 | loop | other | scope | macro | ns | sib
+    pub level: String,
+    /// unique byte emitted right at a label definition (its offsets give the label's addresses)
+    pub tag: Option<u8>,
+    pub cval: Option<i64>,
+    pub values: BTreeSet<i64>,
+    /// label | const | scope | macro | ns
+    pub kind: &'static str,
+    /// several symbols share this source position (loop iterations, a file imported twice)
+    pub multi: bool,
+}
+
+#[derive(Clone, Debug, PartialEq, Eq)]
+pub enum Role {
+    /// the occurrence is this definition's own name token
+    DefSite(usize),
+    /// refers to the only definition of that name in the project (scope labels, macro, namespaces)
+    KnownName(String),
+    /// last segment of a use: the definition is identified by the bytes emitted for use `id`
+    ByBytes(usize),
+    /// a `super` segment
+    Super,
+}
+
+#[derive(Clone, Debug, PartialEq, Eq)]
+pub enum Resolved {
+    Def(usize),
+    /// nothing was emitted for the use (uninvoked macro, untaken branch), or a `super` token:
+    /// no verdict on the target, symmetry only
+    SymmetricOnly,
+    /// emitted values do not identify exactly one definition (counted, no verdict)
+    Ambiguous,
+}
+
+#[derive(Clone, Debug)]
+pub struct Occ {
+    pub file: usize,
+    pub line: u32,
+    /// range the occurrence occupies (what references / highlights / edits are compared with)
+    pub c0: u32,
+    pub c1: u32,
+    /// identifier tokens inside the range that are queried: (col, len, text)
+    pub probes: Vec<(u32, u32, String)>,
+    pub role: Role,
+    pub level: String,
+    pub form: String,
+    pub wrap: &'static str,
+    pub resolved: Resolved,
+    /// the use (marker id) this occurrence is a path segment of
+    pub use_id: Option<usize>,
+}
+
+#[derive(Clone, Debug)]
+pub struct UseInfo {
+    pub id: usize,
+    pub text_mode: bool,
+    /// how many times the use is expected to be emitted is not assumed; this is what was found
+    pub emitted: Vec<i64>,
+}
+
+#[derive(Clone, Debug)]
+pub struct Program {
+    pub spec: Spec,
+    pub files: Vec<(String, String)>,
+    pub defs: Vec<Def>,
+    pub occs: Vec<Occ>,
+    pub uses: Vec<UseInfo>,
+    pub imp_suffix: String,
+}
+
+struct Gen {
+    files: Vec<(String, Vec<String>)>,
+    defs: Vec<Def>,
+    occs: Vec<Occ>,
+    uses: Vec<UseInfo>,
+    imp_suffix: String,
+}
+
+const INDS: [&str; 4] = ["", "  ", "    ", "      "];
+
+impl Gen {
+    fn new() -> Gen {
+        Gen {
+            files: vec![("main.asm".into(), vec![]), ("other.asm".into(), vec![])],
+            defs: vec![],
+            occs: vec![],
+            uses: vec![],
+            imp_suffix: String::new(),
+        }
+    }
+
+    fn line(&mut self, f: usize, s: String) -> u32 {
+        self.files[f].1.push(s);
+        (self.files[f].1.len() - 1) as u32
+    }
+
+    fn form(&self, f: &str) -> String {
+        format!("{}{}", f, self.imp_suffix)
+    }
+
+    fn add_def(&mut self, file: usize, line: u32, c0: u32, name: &str, level: &str, tag: Option<u8>, cval: Option<i64>, wrap: &'static str, occ_level: &str) -> usize {
+        let c1 = c0 + name.len() as u32;
+        self.defs.push(Def {
+            file,
+            line,
+            c0,
+            c1,
+            name: name.to_string(),
+            level: level.to_string(),
+            tag,
+            cval,
+            values: cval.into_iter().collect(),
+            kind: if tag.is_some() {
+                "label"
+            } else if cval.is_some() {
+                "const"
+            } else {
+                match level {
+                    "macro" => "macro",
+                    "ns" => "ns",
+                    _ => "scope",
+                }
+            },
+            multi: level == "loop",
+        });
+        let d = self.defs.len() - 1;
+        let form = self.form("def");
+        self.occs.push(Occ {
+            file,
+            line,
+            c0,
+            c1,
+            probes: vec![(c0, c1 - c0, name.to_string())],
+            role: Role::DefSite(d),
+            level: occ_level.to_string(),
+            form,
+            wrap,
+            resolved: Resolved::Def(d),
+            use_id: None,
+        });
+        d
+    }
+
+    /// `a: .byte $d1 // a`  or  `.const a = 11 // a`
+    fn def_a(&mut self, f: usize, ind: usize, kind: Kind, level: &str, occ_level: &str, tag: u8, cval: i64, wrap: &'static str) {
+        match kind {
+            Kind::N => {}
+            Kind::L => {
+                let l = self.line(f, format!("{}a: .byte ${:02x} // a", INDS[ind], tag));
+                self.add_def(f, l, INDS[ind].len() as u32, "a", level, Some(tag), None, wrap, occ_level);
+            }
+            Kind::C => {
+                let l = self.line(f, format!("{}.const a = {} // a", INDS[ind], cval));
+                self.add_def(f, l, INDS[ind].len() as u32 + 7, "a", level, None, Some(cval), wrap, occ_level);
+            }
+        }
+    }
+
+    fn scope_open(&mut self, f: usize, ind: usize, name: &str, occ_level: &str) {
+        let l = self.line(f, format!("{}{}: {{", INDS[ind], name));
+        self.add_def(f, l, INDS[ind].len() as u32, name, "scope", None, None, "none", occ_level);
+    }
+
+    fn close(&mut self, f: usize, ind: usize) {
+        self.line(f, format!("{}}}", INDS[ind]));
+    }
+
+    /// marker, `.word <path> /* a */` (or `.text "{<path>}" /* a */`), end marker
+    fn use_block(&mut self, f: usize, ind: usize, id: usize, path: &str, level: &str, form: &str, wrap: &'static str, text_mode: bool) {
+        let i = INDS[ind];
+        self.line(f, format!("{}.byte $fe,${:02x}", i, 0xe0 + id));
+        let (l, pcol) = if text_mode {
+            let l = self.line(f, format!("{}.text \"{{{}}}\" /* a */", i, path));
+            (l, i.len() as u32 + 8)
+        } else {
+            let l = self.line(f, format!("{}.word {} /* a */", i, path));
+            (l, i.len() as u32 + 6)
+        };
+        self.line(f, format!("{}.byte $fd,${:02x}", i, 0xe0 + id));
+        self.uses.push(UseInfo { id, text_mode, emitted: vec![] });
+        let segs: Vec<&str> = path.split('.').collect();
+        let mut col = pcol;
+        for (k, seg) in segs.iter().enumerate() {
+            let last = k + 1 == segs.len();
+            let role = if *seg == "super" {
+                Role::Super
+            } else if last {
+                Role::ByBytes(id)
+            } else {
+                Role::KnownName(seg.to_string())
+            };
+            let form = if last { form.to_string() } else { format!("{}~{}", form, seg) };
+            let form = self.form(&form);
+            self.occs.push(Occ {
+                file: f,
+                line: l,
+                c0: col,
+                c1: col + seg.len() as u32,
+                probes: vec![(col, seg.len() as u32, seg.to_string())],
+                role,
+                level: level.to_string(),
+                form,
+                wrap,
+                resolved: Resolved::SymmetricOnly,
+                use_id: Some(id),
+            });
+            col += seg.len() as u32 + 1;
+        }
+    }
+
+    /// the main use with its wrapper
+    fn main_use(&mut self, f: usize, ind: usize, path: &str, level: &str, wrap: usize) {
+        let w = WRAPS[wrap];
+        let i = INDS[ind];
+        match w {
+            "none" => self.use_block(f, ind, 0, path, level, path, w, false),
+            "interp" => self.use_block(f, ind, 0, path, level, path, w, true),
+            "macro" | "macro-uninvoked" => {
+                let l = self.line(f, format!("{}.macro m() {{", i));
+                self.add_def(f, l, i.len() as u32 + 7, "m", "macro", None, None, w, level);
+                self.use_block(f, ind + 1, 0, path, level, path, w, false);
+                self.close(f, ind);
+                if w == "macro" {
+                    let l = self.line(f, format!("{}m()", i));
+                    let form = self.form("m()");
+                    self.occs.push(Occ {
+                        file: f,
+                        line: l,
+                        c0: i.len() as u32,
+                        c1: i.len() as u32 + 1,
+                        probes: vec![(i.len() as u32, 1, "m".into())],
+                        role: Role::KnownName("m".into()),
+                        level: level.to_string(),
+                        form,
+                        wrap: w,
+                        resolved: Resolved::SymmetricOnly,
+                use_id: None,
+                    });
+                }
+            }
+            "if1" | "if0" => {
+                self.line(f, format!("{}.if {} {{", i, if w == "if1" { 1 } else { 0 }));
+                self.use_block(f, ind + 1, 0, path, level, path, w, false);
+                self.close(f, ind);
+            }
+            "loop" | "loopdef" => {
+                self.line(f, format!("{}.loop 2 {{", i));
+                if w == "loopdef" {
+                    self.def_a(f, ind + 1, Kind::L, "loop", level, 0xd5, 0, w);
+                }
+                self.use_block(f, ind + 1, 0, path, level, path, w, false);
+                self.close(f, ind);
+            }
+            _ => unreachable!(),
+        }
+    }
+
+    fn tail(&mut self) {
+        let l = self.line(0, "sib: { .const q = 44 }".into());
+        self.add_def(0, l, 0, "sib", "scope", None, None, "none", "root");
+        self.add_def(0, l, 14, "q", "sib", None, Some(44), "none", "sib");
+        self.line(0, ".text \"a\" /* a */".into());
+    }
+
+    fn finish(self, spec: Spec) -> Program {
+        let mut files = vec![];
+        for (name, lines) in &self.files {
+            if lines.is_empty() {
+                continue;
+            }
+            files.push((name.clone(), lines.join("\n") + "\n"));
+        }
+        Program {
+            spec,
+            files,
+            defs: self.defs,
+            occs: self.occs,
+            uses: self.uses,
+            imp_suffix: self.imp_suffix,
+        }
+    }
+}
+
+pub fn generate(spec: &Spec) -> Program {
+    let mut g = Gen::new();
+    match spec {
+        Spec::Base { kinds, ulevel, form, wrap, use_first } => {
+            g.line(0, "// a".into());
+            fn level(g: &mut Gen, lvl: usize, kinds: &[Kind; 3], ulevel: usize, form: usize, wrap: usize, use_first: bool) {
+                let name = LEVELS[lvl];
+                let tag = 0xd1 + lvl as u8;
+                let cval = 11 * (lvl as i64 + 1);
+                if !use_first {
+                    g.def_a(0, lvl, kinds[lvl], name, name, tag, cval, "none");
+                    if kinds[lvl] != Kind::N {
+                        g.use_block(0, lvl, lvl + 1, "a", name, "local-use", "none", false);
+                    }
+                }
+                if ulevel == lvl {
+                    g.main_use(0, lvl, FORMS[form], name, wrap);
+                }
+                if lvl < 2 {
+                    g.scope_open(0, lvl, LEVELS[lvl + 1], name);
+                    level(g, lvl + 1, kinds, ulevel, form, wrap, use_first);
+                    g.close(0, lvl);
+                }
+                if use_first {
+                    if kinds[lvl] != Kind::N {
+                        g.use_block(0, lvl, lvl + 1, "a", name, "local-use", "none", false);
+                    }
+                    g.def_a(0, lvl, kinds[lvl], name, name, tag, cval, "none");
+                }
+            }
+            level(&mut g, 0, kinds, *ulevel, *form, *wrap, *use_first);
+            g.tail();
+        }
+        Spec::Import { imp, okind, s1kind, ulevel, sup, wrap, import_last } => {
+            let impname = IMPORTS[*imp];
+            g.imp_suffix = format!("@{}", impname);
+            // other.asm
+            g.line(1, "// a".into());
+            if impname == "block" {
+                g.scope_open(1, 0, "o1", "other");
+                g.def_a(1, 1, *okind, "other", "other", 0xd4, 66, "none");
+                g.use_block(1, 1, 4, "a", "other", "local-use", "none", false);
+                g.close(1, 0);
+            } else {
+                g.def_a(1, 0, *okind, "other", "other", 0xd4, 66, "none");
+                g.use_block(1, 0, 4, "a", "other", "local-use", "none", false);
+            }
+            // main.asm
+            g.line(0, "// a".into());
+            let name = match impname {
+                "star" | "named" => "a",
+                "alias" => "b",
+                "ns" => "ns.a",
+                "twice" => "n1.a",
+                _ => "o1.a",
+            };
+            let imports = |g: &mut Gen| match impname {
+                "star" => {
+                    g.line(0, ".import * from \"other.asm\"".into());
+                }
+                "named" | "block" => {
+                    let n = if impname == "named" { "a" } else { "o1" };
+                    let l = g.line(0, format!(".import {} from \"other.asm\"", n));
+                    let form = g.form("import-arg");
+                    g.occs.push(Occ {
+                        file: 0,
+                        line: l,
+                        c0: 8,
+                        c1: 8 + n.len() as u32,
+                        probes: vec![(8, n.len() as u32, n.to_string())],
+                        role: Role::KnownName(if impname == "named" { "other:a".into() } else { "o1".into() }),
+                        level: "root".into(),
+                        form,
+                        wrap: "none",
+                        resolved: Resolved::SymmetricOnly,
+                use_id: None,
+                    });
+                }
+                "alias" => {
+                    let l = g.line(0, ".import a as b from \"other.asm\"".into());
+                    let form = g.form("import-arg");
+                    g.occs.push(Occ {
+                        file: 0,
+                        line: l,
+                        c0: 8,
+                        c1: 14,
+                        probes: vec![(8, 1, "a".into()), (13, 1, "b".into())],
+                        role: Role::KnownName("other:a".into()),
+                        level: "root".into(),
+                        form,
+                        wrap: "none",
+                        resolved: Resolved::SymmetricOnly,
+                use_id: None,
+                    });
+                }
+                "ns" | "twice" => {
+                    let names: &[&str] = if impname == "ns" { &["ns"] } else { &["n1", "n2"] };
+                    for n in names {
+                        let l = g.line(0, format!(".import * as {} from \"other.asm\"", n));
+                        g.add_def(0, l, 13, n, "ns", None, None, "none", "root");
+                    }
+                }
+                _ => unreachable!(),
+            };
+            if !*import_last {
+                imports(&mut g);
+            }
+            if *ulevel == 0 {
+                g.main_use(0, 0, name, "root", *wrap);
+                if impname == "twice" {
+                    g.use_block(0, 0, 5, "n2.a", "root", "n2.a", "none", false);
+                }
+            }
+            g.scope_open(0, 0, "s1", "root");
+            g.def_a(0, 1, *s1kind, "s1", "s1", 0xd2, 22, "none");
+            if *s1kind != Kind::N {
+                g.use_block(0, 1, 2, "a", "s1", "local-use", "none", false);
+            }
+            if *ulevel == 1 {
+                let path = if *sup { format!("super.{}", name) } else { name.to_string() };
+                g.main_use(0, 1, &path, "s1", *wrap);
+                if impname == "twice" {
+                    g.use_block(0, 1, 5, "n2.a", "s1", "n2.a", "none", false);
+                }
+            }
+            g.close(0, 0);
+            if *import_last {
+                imports(&mut g);
+            }
+            g.tail();
+        }
+    }
+    let mut p = g.finish(spec.clone());
+    if let Spec::Import { imp, .. } = spec {
+        if IMPORTS[*imp] == "twice" {
+            for d in p.defs.iter_mut() {
+                if d.file == 1 {
+                    d.multi = true;
+                }
+            }
+        }
+    }
+    // resolve names that are known by construction
+    for i in 0..p.occs.len() {
+        if let Role::KnownName(n) = &p.occs[i].role {
+            let d = if n == "other:a" {
+                p.defs.iter().position(|d| d.level == "other" && d.name == "a")
+            } else {
+                p.defs.iter().position(|d| &d.name == n)
+            };
+            if let Some(d) = d {
+                p.occs[i].resolved = Resolved::Def(d);
+            }
+        }
+    }
+    p
+}
+
+// ------------------------------------------------------------------------------------------
+// in-process assembly (own oracle run, same options as the language server)
+// ------------------------------------------------------------------------------------------
+
+#[derive(Clone, Debug, PartialEq, Eq)]
+pub struct Asm {
+    pub diags: Vec<String>,
+    pub segs: Vec<(String, usize, Vec<u8>)>,
+}
+
+pub fn assemble(files: &[(String, String)]) -> Result<Asm, PanicInfo> {
+    let mut src = InMemoryParsingSource::new();
+    for (n, t) in files {
+        src = src.add(n, t);
+    }
+    guard(move || {
+        let (tree, errs) = parse(Path::new("main.asm"), src.into());
+        let mut diags: Vec<String> = errs.iter().map(|d| d.message.clone()).collect();
+        let mut segs = vec![];
+        if let (Some(tree), true) = (tree, diags.is_empty()) {
+            let (ctx, errs) = codegen(
+                tree,
+                CodegenOptions {
+                    enable_greedy_analysis: true,
+                    ..Default::default()
+                },
+            );
+            let cm = errs.code_map();
+            for d in errs.iter() {
+                let loc = match (cm, d.labels.first()) {
+                    (Some(cm), Some(l)) => {
+                        let sl = cm.look_up_span(l.file_id);
+                        format!("{}:{}:{}: ", sl.file.name(), sl.begin.line + 1, sl.begin.column + 1)
+                    }
+                    _ => String::new(),
+                };
+                diags.push(format!("{}{}", loc, d.message));
+            }
+            if let Some(c) = ctx {
+                for (name, s) in c.segments() {
+                    segs.push((name.to_string(), s.range().start, s.range_data().to_vec()));
+                }
+            }
+        }
+        Asm { diags, segs }
+    })
+}
+
+/// Fills definition values and the values emitted for every use; resolves `ByBytes` occurrences.
+/// `Err` = the layout assumptions of this engine do not hold (machinery problem, never a verdict).
+pub fn resolve(p: &mut Program, asm: &Asm) -> Result<(), String> {
+    if asm.segs.len() != 1 {
+        return Err(format!("expected one segment, got {}", asm.segs.len()));
+    }
+    let (_, start, bytes) = &asm.segs[0];
+    if bytes.len() >= 0xd0 {
+        return Err("program longer than the tag byte range allows".into());
+    }
+    for d in p.defs.iter_mut() {
+        if let Some(tag) = d.tag {
+            d.values = bytes
+                .iter()
+                .enumerate()
+                .filter(|(_, b)| **b == tag)
+                .map(|(i, _)| (*start + i) as i64)
+                .collect();
+            if d.values.is_empty() {
+                return Err(format!("tag byte ${:02x} not found in the output", tag));
+            }
+        }
+    }
+    // definitions named `a`/... must have pairwise disjoint value sets
+    for i in 0..p.defs.len() {
+        for j in 0..i {
+            if p.defs[i].values.intersection(&p.defs[j].values).next().is_some() {
+                return Err("two definitions share a value".into());
+            }
+        }
+    }
+    for u in p.uses.iter_mut() {
+        u.emitted.clear();
+        let m0 = [0xfeu8, 0xe0 + u.id as u8];
+        let m1 = [0xfdu8, 0xe0 + u.id as u8];
+        let mut i = 0;
+        while i + 1 < bytes.len() {
+            if bytes[i..i + 2] == m0 {
+                let rest = &bytes[i + 2..];
+                let end = match rest.windows(2).position(|w| w == m1) {
+                    Some(e) => e,
+                    None => return Err("start marker without end marker".into()),
+                };
+                let payload = &rest[..end];
+                let v = if u.text_mode {
+                    match std::str::from_utf8(payload).ok().and_then(|s| s.parse::<i64>().ok()) {
+                        Some(v) => v,
+                        None => return Err(format!("interpolated payload {:?} is not a number", payload)),
+                    }
+                } else {
+                    if payload.len() != 2 {
+                        return Err(format!("word payload of {} bytes", payload.len()));
+                    }
+                    payload[0] as i64 | ((payload[1] as i64) << 8)
+                };
+                u.emitted.push(v);
+                i += 2 + end + 2;
+            } else {
+                i += 1;
+            }
+        }
+    }
+    for o in p.occs.iter_mut() {
+        if let (Some(id), Role::KnownName(_)) = (o.use_id, &o.role) {
+            // a scope segment of a path in code that is not assembled (the path need not even resolve there)
+            if p.uses.iter().find(|u| u.id == id).map(|u| u.emitted.is_empty()).unwrap_or(false) {
+                o.resolved = Resolved::SymmetricOnly;
+            }
+        }
+        if let Role::ByBytes(id) = o.role {
+            let u = p.uses.iter().find(|u| u.id == id).unwrap();
+            if u.emitted.is_empty() {
+                o.resolved = Resolved::SymmetricOnly;
+                continue;
+            }
+            let mut ds = BTreeSet::new();
+            let mut unknown = false;
+            for v in &u.emitted {
+                match p.defs.iter().position(|d| d.values.contains(v)) {
+                    Some(d) => {
+                        ds.insert(d);
+                    }
+                    None => unknown = true,
+                }
+            }
+            o.resolved = if !unknown && ds.len() == 1 {
+                Resolved::Def(*ds.iter().next().unwrap())
+            } else {
+                Resolved::Ambiguous
+            };
+        }
+    }
+    Ok(())
+}
+
+// ------------------------------------------------------------------------------------------
+// LSP helpers
+// ------------------------------------------------------------------------------------------
+
+/// (file index, line, c0, line1, c1)
+type Loc = (usize, u32, u32, u32, u32);
+
+fn file_of_uri(p_files: &[(String, String)], u: &str) -> Option<usize> {
+    p_files.iter().position(|(n, _)| u.ends_with(&format!("/{}", n)))
+}
+
+fn range_of(v: &Value) -> Option<(u32, u32, u32, u32)> {
+    Some((
+        v["start"]["line"].as_u64()? as u32,
+        v["start"]["character"].as_u64()? as u32,
+        v["end"]["line"].as_u64()? as u32,
+        v["end"]["character"].as_u64()? as u32,
+    ))
+}
+
+fn loc_str(files: &[(String, String)], l: &Loc) -> String {
+    let name = files.get(l.0).map(|f| f.0.as_str()).unwrap_or("?");
+    if l.1 == l.3 {
+        format!("{}:{}:{}-{}", name, l.1, l.2, l.4)
+    } else {
+        format!("{}:{}:{}-{}:{}", name, l.1, l.2, l.3, l.4)
+    }
+}
+
+pub fn open_server(files: &[(String, String)]) -> Result<Server, Death> {
+    let mut s = Server::start();
+    // imported files first, so the entry file finds them in memory
+    for (n, t) in files.iter().rev() {
+        s.did_open(n, t);
+    }
+    s.sync()?;
+    Ok(s)
+}
+
+fn server_diags(s: &Server) -> Vec<String> {
+    let mut out = vec![];
+    for (u, d) in &s.diags {
+        if let Some(a) = d.as_array() {
+            for x in a {
+                out.push(format!(
+                    "{}:{}:{}: {}",
+                    u.rsplit('/').next().unwrap_or(""),
+                    x["range"]["start"]["line"],
+                    x["range"]["start"]["character"],
+                    x["message"].as_str().unwrap_or("")
+                ));
+            }
+        }
+    }
+    out
+}
+
+/// Standard LSP semantics: all ranges refer to the original text; edits must not overlap.
+/// Identical duplicate edits are dropped (counted by the caller).
+pub fn apply_edits(text: &str, edits: &[(u32, u32, u32, u32, String)]) -> Result<(String, usize), String> {
+    let mut line_starts = vec![0usize];
+    for (i, b) in text.bytes().enumerate() {
+        if b == b'\n' {
+            line_starts.push(i + 1);
+        }
+    }
+    let off = |l: u32, c: u32| -> Result<usize, String> {
+        let ls = *line_starts.get(l as usize).ok_or_else(|| format!("line {} outside the document", l))?;
+        let le = line_starts.get(l as usize + 1).map(|e| e - 1).unwrap_or(text.len());
+        if ls + c as usize > le {
+            return Err(format!("column {} outside line {}", c, l));
+        }
+        Ok(ls + c as usize)
+    };
+    let mut es: Vec<(usize, usize, &str)> = vec![];
+    for (l0, c0, l1, c1, t) in edits {
+        let a = off(*l0, *c0)?;
+        let b = off(*l1, *c1)?;
+        if b < a {
+            return Err("edit range ends before it starts".into());
+        }
+        es.push((a, b, t.as_str()));
+    }
+    es.sort();
+    let before = es.len();
+    es.dedup();
+    let dups = before - es.len();
+    for w in es.windows(2) {
+        if w[1].0 < w[0].1 || (w[1].0 == w[0].0) {
+            return Err(format!(
+                "overlapping edits [{}..{})->{:?} and [{}..{})->{:?}",
+                w[0].0, w[0].1, w[0].2, w[1].0, w[1].1, w[1].2
+            ));
+        }
+    }
+    let mut out = text.to_string();
+    for (a, b, t) in es.iter().rev() {
+        out.replace_range(*a..*b, t);
+    }
+    Ok((out, dups))
+}
+
+#[derive(Clone, Copy, Debug, PartialEq, Eq)]
+enum Trivia {
+    Comment,
+    StringText,
+}
+
+/// comment and string-literal-text spans of a line (the generated texts are simple enough for a
+/// scanner: no quotes inside comments, no comment openers inside strings)
+fn trivia_spans(line: &str) -> Vec<(usize, usize, Trivia)> {
+    let b = line.as_bytes();
+    let mut out = vec![];
+    let mut i = 0;
+    while i < b.len() {
+        if b[i] == b'/' && i + 1 < b.len() && b[i + 1] == b'/' {
+            out.push((i, b.len(), Trivia::Comment));
+            break;
+        } else if b[i] == b'/' && i + 1 < b.len() && b[i + 1] == b'*' {
+            let end = line[i + 2..].find("*/").map(|e| i + 2 + e + 2).unwrap_or(b.len());
+            out.push((i, end, Trivia::Comment));
+            i = end;
+        } else if b[i] == b'"' {
+            let end = line[i + 1..].find('"').map(|e| i + 1 + e).unwrap_or(b.len());
+            // text between the quotes, minus `{...}` interpolations
+            let mut j = i + 1;
+            let mut seg_start = j;
+            while j < end {
+                if b[j] == b'{' {
+                    if j > seg_start {
+                        out.push((seg_start, j, Trivia::StringText));
+                    }
+                    let close = line[j..end].find('}').map(|e| j + e + 1).unwrap_or(end);
+                    j = close;
+                    seg_start = j;
+                } else {
+                    j += 1;
+                }
+            }
+            if end > seg_start {
+                out.push((seg_start, end, Trivia::StringText));
+            }
+            i = end + 1;
+        } else {
+            i += 1;
+        }
+    }
+    out
+}
+
+fn is_ident_char(c: u8) -> bool {
+    c.is_ascii_alphanumeric() || c == b'_'
+}
+
+// ------------------------------------------------------------------------------------------
+// reporting helpers
+// ------------------------------------------------------------------------------------------
+
+fn files_json(files: &[(String, String)]) -> Value {
+    let mut m = serde_json::Map::new();
+    for (n, t) in files {
+        m.insert(n.clone(), json!(t));
+    }
+    Value::Object(m)
+}
+
+fn def_level(p: &Program, r: &Resolved) -> String {
+    match r {
+        Resolved::Def(d) => p.defs[*d].level.clone(),
+        Resolved::SymmetricOnly => "none".into(),
+        Resolved::Ambiguous => "ambiguous".into(),
+    }
+}
+
+struct Run<'a> {
+    ctx: &'a Ctx,
+    verbose: bool,
+    /// when replaying: only cases matching this filter are executed
+    filter: Option<&'a Value>,
+    reproduced: std::sync::atomic::AtomicU64,
+}
+
+impl<'a> Run<'a> {
+    fn finding(&self, sig: String, what: String, case: Value) {
+        if self.verbose {
+            println!("FINDING {}\n  {}", sig, what);
+        }
+        self.reproduced.fetch_add(1, std::sync::atomic::Ordering::Relaxed);
+        self.ctx.finding(Finding::new(sig, what, case));
+    }
+}
+
+// ------------------------------------------------------------------------------------------
+// C16
+// ------------------------------------------------------------------------------------------
+
+fn parse_definition(p: &Program, v: &Value) -> Result<Vec<Loc>, String> {
+    if v.is_null() {
+        return Ok(vec![]);
+    }
+    if let Some(e) = v.get("__error") {
+        return Err(format!("error response: {}", e));
+    }
+    let arr: Vec<Value> = match v {
+        Value::Array(a) => a.clone(),
+        other => vec![other.clone()],
+    };
+    let mut out = vec![];
+    for x in arr {
+        let (u, r) = if x.get("targetUri").is_some() {
+            (x["targetUri"].as_str(), range_of(&x["targetSelectionRange"]))
+        } else {
+            (x["uri"].as_str(), range_of(&x["range"]))
+        };
+        match (u.and_then(|u| file_of_uri(&p.files, u)), r) {
+            (Some(f), Some(r)) => out.push((f, r.0, r.1, r.2, r.3)),
+            _ => return Err(format!("unparsable location {}", x)),
+        }
+    }
+    Ok(out)
+}
+
+fn parse_locations(p: &Program, v: &Value, file_default: usize) -> Result<Vec<Loc>, String> {
+    if v.is_null() {
+        return Ok(vec![]);
+    }
+    if let Some(e) = v.get("__error") {
+        return Err(format!("error response: {}", e));
+    }
+    let mut out = vec![];
+    for x in v.as_array().cloned().unwrap_or_default() {
+        let f = match x.get("uri").and_then(|u| u.as_str()) {
+            Some(u) => file_of_uri(&p.files, u),
+            None => Some(file_default),
+        };
+        match (f, range_of(&x["range"])) {
+            (Some(f), Some(r)) => out.push((f, r.0, r.1, r.2, r.3)),
+            _ => return Err(format!("unparsable location {}", x)),
+        }
+    }
+    Ok(out)
+}
+
+fn occ_loc(o: &Occ) -> Loc {
+    (o.file, o.line, o.c0, o.line, o.c1)
+}
+fn def_loc(d: &Def) -> Loc {
+    (d.file, d.line, d.c0, d.line, d.c1)
+}
+
+/// What the server says at the first character of every occurrence (uncounted helper requests):
+/// the definition it names there, and whether the position belongs to several definitions at
+/// once (`references` with declarations then contains the name tokens of two different definitions) –
+/// an observation that is used to keep the instances of that one cause in few signatures.
+struct Survey {
+    server_def: Vec<Option<usize>>,
+    several: Vec<bool>,
+}
+
+fn survey(p: &Program, s: &mut Server) -> Result<Survey, Death> {
+    let mut server_def = vec![None; p.occs.len()];
+    let mut several = vec![false; p.occs.len()];
+    for (oi, o) in p.occs.iter().enumerate() {
+        let (col, _, _) = &o.probes[0];
+        let v = s.request("textDocument/definition", pos_params(&p.files[o.file].0, o.line, *col))?;
+        if let Ok(locs) = parse_definition(p, &v) {
+            server_def[oi] = locs.first().and_then(|l| p.defs.iter().position(|d| def_loc(d) == *l));
+        }
+        let mut params = pos_params(&p.files[o.file].0, o.line, *col);
+        params["context"] = json!({ "includeDeclaration": true });
+        let v = s.request("textDocument/references", params)?;
+        if let Ok(locs) = parse_locations(p, &v, o.file) {
+            let sites: BTreeSet<Loc> = locs.into_iter().filter(|l| p.defs.iter().any(|d| def_loc(d) == *l)).collect();
+            several[oi] = sites.len() >= 2;
+        }
+    }
+    Ok(Survey { server_def, several })
+}
+
+const SEVERAL: &str = "+several-definitions-at-position";
+
+fn def_label(p: &Program, d: usize) -> String {
+    let d = &p.defs[d];
+    match d.kind {
+        "label" => format!("{}L", d.level),
+        "const" => format!("{}C", d.level),
+        _ => d.level.clone(),
+    }
+}
+
+fn resolved_label(p: &Program, r: &Resolved) -> String {
+    match r {
+        Resolved::Def(d) => def_label(p, *d),
+        Resolved::SymmetricOnly => "none".into(),
+        Resolved::Ambiguous => "ambiguous".into(),
+    }
+}
+
+fn sig_of(prefix: &str, dl: &str, ul: &str, form: &str, wrap: &str, what: &str, several: bool) -> String {
+    sig_cause(prefix, dl, ul, form, wrap, what, if several { Some(&SEVERAL[1..]) } else { None })
+}
+
+/// `cause` = an observation that identifies one cause whatever the level, path form and wrapper
+fn sig_cause(prefix: &str, dl: &str, ul: &str, form: &str, wrap: &str, what: &str, cause: Option<&str>) -> String {
+    if let Some(c) = cause {
+        return format!("{}:*/*:*:*:{}+{}", prefix, what, c);
+    }
+    let several = false;
+    if dl == "ns" && !several {
+        // a namespace created by `.import * as ns`: one cause whatever the level, path and wrapper
+        format!("{}:ns/*:*:*:{}", prefix, what)
+    } else if several {
+        format!("{}:*/*:*:*:{}{}", prefix, what, SEVERAL)
+    } else {
+        format!("{}:{}/{}:{}:{}:{}", prefix, dl, ul, form, wrap, what)
+    }
+}
+
+fn src_line<'a>(p: &'a Program, file: usize, line: u32) -> &'a str {
+    p.files[file].1.lines().nth(line as usize).unwrap_or("").trim()
+}
+
+fn nav_checks(run: &Run, p: &Program, s: &mut Server) -> Result<(), Death> {
+    let ctx = run.ctx;
+    let spec = p.spec.to_json();
+    let sv = survey(p, s)?;
+    let wanted = |req: &str, file: usize, line: u32, ch: u32| -> bool {
+        match run.filter {
+            None => true,
+            Some(f) => {
+                f["request"].as_str() == Some(req)
+                    && f["file"].as_str() == Some(p.files[file].0.as_str())
+                    && f["line"].as_u64() == Some(line as u64)
+                    && f["character"].as_u64() == Some(ch as u64)
+            }
+        }
+    };
+    // ---- definition at every probe of every occurrence -----------------------------------
+    for (oi, o) in p.occs.iter().enumerate() {
+        for (col, len, text) in o.probes.iter() {
+            let mut positions = vec![*col];
+            if *len > 1 {
+                positions.push(col + len - 1);
+            }
+            for ch in positions {
+                if !wanted("definition", o.file, o.line, ch) {
+                    continue;
+                }
+                let v = s.request("textDocument/definition", pos_params(&p.files[o.file].0, o.line, ch))?;
+                let case = json!({"spec": spec, "files": files_json(&p.files), "request": "definition",
+                    "file": p.files[o.file].0, "line": o.line, "character": ch, "token": text});
+                ctx.eval(|| case.clone());
+                if run.verbose {
+                    println!("definition at {}:{}:{} ({}) -> {}", p.files[o.file].0, o.line, ch, text, v);
+                }
+                let locs = match parse_definition(p, &v) {
+                    Ok(l) => l,
+                    Err(e) => {
+                        run.finding(
+                            sig_of("nav:definition", &resolved_label(p, &o.resolved), &o.level, &o.form, o.wrap, "malformed", false),
+                            e,
+                            case,
+                        );
+                        continue;
+                    }
+                };
+                if locs.len() > 1 {
+                    ctx.count("definition_answers_with_several_targets");
+                }
+                match &o.resolved {
+                    Resolved::Def(d) => {
+                        if matches!(o.role, Role::ByBytes(_)) {
+                            ctx.count("definition_checked_against_emitted_bytes");
+                            ctx.nontrivial(fnv_str(&case.to_string()));
+                        } else {
+                            ctx.count("definition_checked_by_construction");
+                        }
+                        let exp = def_loc(&p.defs[*d]);
+                        let emitted = match o.role {
+                            Role::ByBytes(id) => format!(
+                                " (emitted value(s) {:?})",
+                                p.uses.iter().find(|u| u.id == id).map(|u| u.emitted.clone()).unwrap_or_default()
+                            ),
+                            _ => String::new(),
+                        };
+                        if locs.is_empty() {
+                            run.finding(
+                                sig_of("nav:definition", &def_label(p, *d), &o.level, &o.form, o.wrap, "missing", sv.several[oi]),
+                                format!(
+                                    "definition at {}:{}:{} (`{}` in `{}`) returned nothing; the build binds it to `{}` at {}{}",
+                                    p.files[o.file].0, o.line, ch, text, src_line(p, o.file, o.line),
+                                    p.defs[*d].name, loc_str(&p.files, &exp), emitted
+                                ),
+                                case,
+                            );
+                        } else if locs[0] != exp {
+                            run.finding(
+                                sig_of("nav:definition", &def_label(p, *d), &o.level, &o.form, o.wrap, "wrong-target", sv.several[oi]),
+                                format!(
+                                    "definition at {}:{}:{} (`{}` in `{}`) leads to {} (`{}`) but the build uses the {} definition at {}{}",
+                                    p.files[o.file].0, o.line, ch, text, src_line(p, o.file, o.line),
+                                    loc_str(&p.files, &locs[0]), src_line(p, locs[0].0, locs[0].1),
+                                    def_label(p, *d), loc_str(&p.files, &exp), emitted
+                                ),
+                                case,
+                            );
+                        } else {
+                            ctx.count("definition_agrees");
+                        }
+                    }
+                    Resolved::SymmetricOnly => {
+                        ctx.count(if o.role == Role::Super {
+                            "definition_on_super_token_no_verdict"
+                        } else {
+                            "definition_in_unassembled_code_no_verdict"
+                        });
+                        if !locs.is_empty() {
+                            ctx.count("definition_in_unassembled_code_or_super_answered");
+                        }
+                    }
+                    Resolved::Ambiguous => ctx.count("definition_ambiguous_bytes_no_verdict"),
+                }
+            }
+        }
+    }
+    // ---- references and highlights ---------------------------------------------------------
+    // does occurrence oi refer to d? by the oracle where it has a verdict, by the server's own
+    // definition answer otherwise (symmetry)
+    let refers = |oi: usize, d: usize| -> Option<bool> {
+        let o = &p.occs[oi];
+        match &o.resolved {
+            Resolved::Def(x) => Some(*x == d),
+            Resolved::SymmetricOnly => Some(sv.server_def[oi] == Some(d)),
+            Resolved::Ambiguous => None,
+        }
+    };
+    // one finding per request: everything that is missing / extra / asymmetric in its answer
+    let compare = |req: &str, label: &str, d: usize, anchor_i: usize, got: &[Loc], incl_decl: bool, only_file: Option<usize>, case: &Value| {
+        let anchor = &p.occs[anchor_i];
+        let anchored_at_def = matches!(anchor.role, Role::DefSite(_));
+        let gotset: BTreeSet<Loc> = got.iter().cloned().collect();
+        if gotset.len() != got.len() {
+            ctx.count("answers_with_duplicate_locations");
+        }
+        let dl = def_loc(&p.defs[d]);
+        let mut explained: BTreeSet<Loc> = BTreeSet::new();
+        let mut whats: BTreeSet<&str> = BTreeSet::new();
+        let mut notes: Vec<String> = vec![];
+        let mut several = sv.several[anchor_i];
+        for (oi, o) in p.occs.iter().enumerate() {
+            if let Some(f) = only_file {
+                if o.file != f {
+                    continue;
+                }
+            }
+            let l = occ_loc(o);
+            explained.insert(l);
+            let is_def_site = matches!(o.role, Role::DefSite(_));
+            let expected = match refers(oi, d) {
+                Some(r) => r && (incl_decl || !is_def_site),
+                None => continue,
+            };
+            let present = gotset.contains(&l);
+            if expected == present {
+                continue;
+            }
+            if expected && !present && p.defs[d].multi && !anchored_at_def {
+                // several symbols share this source position (loop iterations, a file imported
+                // twice): asked at a use, the server answers for that use's instance only
+                ctx.count("occurrences_of_other_instances_of_a_multi_instance_definition_not_judged");
+                continue;
+            }
+            let symmetric = o.resolved == Resolved::SymmetricOnly;
+            let what = if symmetric {
+                "asymmetric"
+            } else if expected {
+                "missing"
+            } else {
+                "extra"
+            };
+            whats.insert(what);
+            several |= sv.several[oi];
+            notes.push(format!(
+                "{} {} (`{}`) {}",
+                if present { "contains" } else { "lacks" },
+                loc_str(&p.files, &l),
+                src_line(p, o.file, o.line),
+                if symmetric {
+                    format!(
+                        "although `definition` there {} it (nothing is assembled for it: symmetry only)",
+                        if expected { "names" } else { "does not name" }
+                    )
+                } else if expected {
+                    "which the build binds to that definition".to_string()
+                } else {
+                    format!("which the build binds to {}", resolved_label(p, &o.resolved))
+                }
+            ));
+        }
+        let mut whole_file = false;
+        for l in gotset.iter() {
+            if !explained.contains(l) {
+                let in_file = only_file.map(|f| l.0 == f).unwrap_or(true);
+                if l.1 != l.3 {
+                    whole_file = true;
+                    notes.push(format!("contains the multi-line range {}", loc_str(&p.files, l)));
+                } else if in_file {
+                    whats.insert("extra-unmodelled-range");
+                    notes.push(format!("contains {} (`{}`), which is not an identifier occurrence", loc_str(&p.files, l), src_line(p, l.0, l.1)));
+                } else {
+                    whats.insert("extra-other-file");
+                    notes.push(format!("contains {} outside the queried file", loc_str(&p.files, l)));
+                }
+            }
+        }
+        if whole_file {
+            // the range of a whole (imported) file: one cause, one signature per file
+            run.finding(
+                format!("nav:{}:*/{}:*:*:whole-file-range", label, anchor.level),
+                format!(
+                    "{} at {} (`{}`): the answer {}",
+                    req,
+                    loc_str(&p.files, &occ_loc(anchor)),
+                    src_line(p, anchor.file, anchor.line),
+                    notes.iter().filter(|n| n.contains("multi-line")).cloned().collect::<Vec<_>>().join("; ")
+                ),
+                case.clone(),
+            );
+        }
+        if whats.is_empty() {
+            if !whole_file {
+                ctx.count(&format!("{}_agrees", label));
+            }
+            return;
+        }
+        let what = whats.iter().cloned().collect::<Vec<_>>().join("+");
+        let shown: Vec<String> = notes.iter().filter(|n| !n.contains("multi-line")).take(4).cloned().collect();
+        run.finding(
+            sig_of(&format!("nav:{}", label), &def_label(p, d), &anchor.level, &anchor.form, anchor.wrap, &what, several),
+            format!(
+                "{} at {} (`{}`, refers to the {} definition `{}` at {}): the answer {}{}",
+                req,
+                loc_str(&p.files, &occ_loc(anchor)),
+                src_line(p, anchor.file, anchor.line),
+                def_label(p, d),
+                p.defs[d].name,
+                loc_str(&p.files, &dl),
+                shown.join("; "),
+                if notes.len() > shown.len() { format!("; … ({} deviations)", notes.len()) } else { String::new() }
+            ),
+            case.clone(),
+        );
+    };
+    for (oi, o) in p.occs.iter().enumerate() {
+        let (col, _, text) = &o.probes[0];
+        // references: on definitions only (that is what the statement talks about)
+        if let Role::DefSite(d) = o.role {
+            for incl in [true, false] {
+                let req = if incl { "references+decl" } else { "references" };
+                if !wanted(req, o.file, o.line, *col) {
+                    continue;
+                }
+                let mut params = pos_params(&p.files[o.file].0, o.line, *col);
+                params["context"] = json!({ "includeDeclaration": incl });
+                let v = s.request("textDocument/references", params)?;
+                let case = json!({"spec": spec, "files": files_json(&p.files), "request": req,
+                    "file": p.files[o.file].0, "line": o.line, "character": col, "token": text});
+                ctx.eval(|| case.clone());
+                if run.verbose {
+                    println!("{} at {}:{}:{} ({}) -> {}", req, p.files[o.file].0, o.line, col, text, v);
+                }
+                match parse_locations(p, &v, o.file) {
+                    Ok(got) => {
+                        if !got.is_empty() {
+                            ctx.nontrivial(fnv_str(&case.to_string()));
+                            ctx.count("references_answers_nonempty");
+                        }
+                        compare(req, "references", d, oi, &got, incl, None, &case)
+                    }
+                    Err(e) => run.finding(
+                        sig_of("nav:references", &def_label(p, d), &o.level, &o.form, o.wrap, "malformed", false),
+                        e,
+                        case,
+                    ),
+                }
+            }
+        }
+        // highlights: at every occurrence that has a definition
+        let d = match &o.resolved {
+            Resolved::Def(d) => Some(*d),
+            Resolved::SymmetricOnly => sv.server_def[oi],
+            Resolved::Ambiguous => None,
+        };
+        if !wanted("documentHighlight", o.file, o.line, *col) {
+            continue;
+        }
+        let v = s.request("textDocument/documentHighlight", pos_params(&p.files[o.file].0, o.line, *col))?;
+        let case = json!({"spec": spec, "files": files_json(&p.files), "request": "documentHighlight",
+            "file": p.files[o.file].0, "line": o.line, "character": col, "token": text});
+        ctx.eval(|| case.clone());
+        if run.verbose {
+            println!("documentHighlight at {}:{}:{} ({}) -> {}", p.files[o.file].0, o.line, col, text, v);
+        }
+        match (parse_locations(p, &v, o.file), d) {
+            (Ok(got), Some(d)) => {
+                if o.resolved == Resolved::SymmetricOnly {
+                    ctx.count("highlight_in_unassembled_code_or_super_symmetry_only");
+                }
+                compare("documentHighlight", "highlight", d, oi, &got, true, Some(o.file), &case)
+            }
+            (Ok(got), None) => {
+                ctx.count("highlight_without_definition_no_verdict");
+                if !got.is_empty() {
+                    ctx.count("highlight_without_definition_nonempty");
+                }
+            }
+            (Err(e), _) => run.finding(
+                sig_of("nav:highlight", &resolved_label(p, &o.resolved), &o.level, &o.form, o.wrap, "malformed", false),
+                e,
+                case,
+            ),
+        }
+    }
+    Ok(())
+}
+
+// ------------------------------------------------------------------------------------------
+// C15
+// ------------------------------------------------------------------------------------------
+
+type Edits = BTreeMap<usize, Vec<(u32, u32, u32, u32, String)>>;
+
+fn parse_workspace_edit(p: &Program, v: &Value) -> Result<Edits, String> {
+    let mut out = BTreeMap::new();
+    let changes = match v.get("changes").and_then(|c| c.as_object()) {
+        Some(c) => c,
+        None => return Err(format!("workspace edit without `changes`: {}", v)),
+    };
+    for (u, edits) in changes {
+        let f = file_of_uri(&p.files, u).ok_or_else(|| format!("edit for a file outside the project: {}", u))?;
+        let mut es = vec![];
+        for e in edits.as_array().cloned().unwrap_or_default() {
+            let r = range_of(&e["range"]).ok_or_else(|| format!("unparsable edit {}", e))?;
+            es.push((r.0, r.1, r.2, r.3, e["newText"].as_str().unwrap_or("").to_string()));
+        }
+        out.insert(f, es);
+    }
+    Ok(out)
+}
+
+fn rename_request(s: &mut Server, file: &str, line: u32, ch: u32, name: &str) -> Result<Value, Death> {
+    let mut params = pos_params(file, line, ch);
+    params["newName"] = json!(name);
+    s.request("textDocument/rename", params)
+}
+
+fn rename_checks(run: &Run, p: &Program, shared: &mut Server, asm0: &Asm) -> Result<(), Death> {
+    let ctx = run.ctx;
+    let spec = p.spec.to_json();
+    let sv = survey(p, shared)?;
+    for (oi, o) in p.occs.iter().enumerate() {
+        for (col, len, text) in o.probes.iter() {
+            let mut cases: Vec<(u32, &str, &str)> = vec![];
+            let mut seen = BTreeSet::new();
+            for (ch, class) in [(*col, "start"), (col + len / 2, "middle"), (col + len, "end")] {
+                if seen.insert(ch) {
+                    cases.push((ch, class, "zz"));
+                }
+            }
+            if text != "q" && text != "sib" {
+                cases.push((*col, "start", "q"));
+            }
+            for (ch, class, new_name) in cases {
+                if let Some(f) = run.filter {
+                    if !(f["file"].as_str() == Some(p.files[o.file].0.as_str())
+                        && f["line"].as_u64() == Some(o.line as u64)
+                        && f["character"].as_u64() == Some(ch as u64)
+                        && f["new_name"].as_str() == Some(new_name))
+                    {
+                        continue;
+                    }
+                }
+                let case = json!({"spec": spec, "files": files_json(&p.files), "request": "rename",
+                    "file": p.files[o.file].0, "line": o.line, "character": ch, "position": class,
+                    "token": text, "new_name": new_name});
+                ctx.eval(|| case.clone());
+                let at = format!("rename `{}`->`{}` at {}:{}:{} (`{}`)", text, new_name, p.files[o.file].0, o.line, ch, src_line(p, o.file, o.line));
+                // -- is a rename offered here? (read-only request: shared server)
+                let prep = shared.request("textDocument/prepareRename", pos_params(&p.files[o.file].0, o.line, ch))?;
+                if run.verbose {
+                    println!("prepareRename at {}:{}:{} -> {}", p.files[o.file].0, o.line, ch, prep);
+                }
+                if prep.is_null() || prep.get("__error").is_some() {
+                    ctx.count(if text == "super" { "rename_not_offered_on_super" } else { "rename_not_offered" });
+                    continue;
+                }
+                ctx.count("rename_offered");
+                match range_of(&prep).or_else(|| range_of(&prep["range"])) {
+                    Some(r) if r == (o.line, *col, o.line, col + len) => {}
+                    _ => ctx.count("prepare_rename_range_differs_from_token"),
+                }
+                // -- the rename itself, on a fresh server
+                let mut s = open_server(&p.files)?;
+                let v = rename_request(&mut s, &p.files[o.file].0, o.line, ch, new_name);
+                drop(s);
+                let v = match v {
+                    Ok(v) => v,
+                    Err(d) => {
+                        run.finding(
+                            sig_of("rename", &resolved_label(p, &o.resolved), &o.level, &o.form, o.wrap, "server-died", false),
+                            format!("{}: {:?}", at, d),
+                            case,
+                        );
+                        continue;
+                    }
+                };
+                if run.verbose {
+                    println!("{} -> {}", at, v);
+                }
+                if v.is_null() {
+                    ctx.count("rename_offered_but_no_edit_returned");
+                    continue;
+                }
+                if v.get("__error").is_some() {
+                    ctx.count("rename_offered_but_error_response");
+                    continue;
+                }
+                let edits = match parse_workspace_edit(p, &v) {
+                    Ok(e) => e,
+                    Err(e) => {
+                        run.finding(
+                            sig_of("rename", &resolved_label(p, &o.resolved), &o.level, &o.form, o.wrap, "malformed-edit", false),
+                            format!("{}: {}", at, e),
+                            case,
+                        );
+                        continue;
+                    }
+                };
+                let n_edits: usize = edits.values().map(|e| e.len()).sum();
+                ctx.count("rename_edits_applied");
+                ctx.nontrivial(fnv_str(&case.to_string()));
+                let target = match &o.resolved {
+                    Resolved::Def(d) => Some(*d),
+                    _ => None,
+                };
+                if target.is_some() {
+                    ctx.count("rename_cases_with_known_target_definition");
+                } else {
+                    ctx.count("rename_cases_in_unassembled_code_or_ambiguous");
+                }
+                // observations that identify a cause whatever the level / path form / wrapper:
+                // the edit touches a position that the server attributes to several definitions; it
+                // replaces a `super` token; it replaces an `x as y` import argument; the renamed
+                // definition exists in several instances (file imported twice, loop body)
+                let mut several = sv.several[oi];
+                let mut on_super = false;
+                let mut on_alias = false;
+                let mut multi = target.map(|t| p.defs[t].multi).unwrap_or(false);
+                for (f, es) in &edits {
+                    for e in es {
+                        if let Some(xi) = p.occs.iter().position(|x| x.file == *f && x.line == e.0 && x.c0 == e.1 && x.c1 == e.3) {
+                            several |= sv.several[xi];
+                            on_super |= p.occs[xi].role == Role::Super;
+                            on_alias |= p.occs[xi].probes.len() > 1;
+                            if let Resolved::Def(d) = p.occs[xi].resolved {
+                                multi |= p.defs[d].multi;
+                            }
+                        }
+                    }
+                }
+                let cause = if several {
+                    Some("several-definitions-at-position")
+                } else if on_super {
+                    Some("edit-replaces-super")
+                } else if on_alias {
+                    Some("edit-replaces-import-alias-argument")
+                } else if multi {
+                    Some("definition-with-several-instances")
+                } else {
+                    None
+                };
+                let report = |what: &str, msg: String| {
+                    run.finding(
+                        sig_cause("rename", &resolved_label(p, &o.resolved), &o.level, &o.form, o.wrap, what, cause),
+                        format!("{} ({} edits): {}", at, n_edits, msg),
+                        case.clone(),
+                    );
+                };
+                // -- (3) every edit range is an identifier occurrence spelled with the old name that
+                //        refers to the renamed symbol; none touches comment or string text
+                let mut problems: BTreeMap<&str, Vec<String>> = BTreeMap::new();
+                for (f, es) in &edits {
+                    let lines: Vec<&str> = p.files[*f].1.lines().collect();
+                    for (l0, c0, l1, c1, new_text) in es {
+                        let here = format!("{}:{}:{}-{}", p.files[*f].0, l0, c0, c1);
+                        if l0 != l1 || (*l0 as usize) >= lines.len() || (*c1 as usize) > lines[*l0 as usize].len() || c1 < c0 {
+                            problems.entry("edit-wrong-token").or_default().push(format!("edit range {} is not inside one line", here));
+                            continue;
+                        }
+                        let line = lines[*l0 as usize];
+                        let mut trivia_hit = false;
+                        for (a, b, t) in trivia_spans(line) {
+                            let (c0, c1) = (*c0 as usize, *c1 as usize);
+                            if (c0 < b && c1 > a) || (c0 == c1 && c0 > a && c0 < b) {
+                                let w = if t == Trivia::Comment { "edit-in-comment" } else { "edit-in-string" };
+                                problems.entry(w).or_default().push(format!("edit {} -> {:?} lies in `{}`", here, new_text, line.trim()));
+                                trivia_hit = true;
+                            }
+                        }
+                        if trivia_hit {
+                            continue;
+                        }
+                        let old = &line[*c0 as usize..*c1 as usize];
+                        let bytes = line.as_bytes();
+                        let boundary_ok = (*c0 == 0 || !is_ident_char(bytes[*c0 as usize - 1]))
+                            && ((*c1 as usize) == bytes.len() || !is_ident_char(bytes[*c1 as usize]))
+                            && !old.is_empty();
+                        let spelled = old.split('.').any(|s| s == text) || old.split(" as ").any(|s| s.trim() == text);
+                        let hit = p.occs.iter().find(|x| x.file == *f && x.line == *l0 && x.c0 == *c0 && x.c1 == *c1);
+                        let refers_elsewhere = match (hit, target) {
+                            (Some(x), Some(t)) => match &x.resolved {
+                                Resolved::Def(d) => *d != t,
+                                _ => false,
+                            },
+                            _ => false,
+                        };
+                        if !boundary_ok || !spelled || refers_elsewhere {
+                            let why = if !boundary_ok {
+                                "does not cover whole identifier tokens".to_string()
+                            } else if !spelled {
+                                format!("covers `{}`, which is not spelled `{}`", old, text)
+                            } else {
+                                format!(
+                                    "covers an occurrence that the build binds to the {} definition, not to the renamed {} one",
+                                    hit.map(|x| resolved_label(p, &x.resolved)).unwrap_or_default(),
+                                    resolved_label(p, &o.resolved)
+                                )
+                            };
+                            problems.entry("edit-wrong-token").or_default().push(format!("edit {} -> {:?} {} (line `{}`)", here, new_text, why, line.trim()));
+                        }
+                    }
+                }
+                // -- (4) all files with occurrences of the renamed symbol are covered
+                if let Some(t) = target {
+                    let mut need: BTreeSet<usize> = BTreeSet::new();
+                    for x in &p.occs {
+                        if x.resolved == Resolved::Def(t) {
+                            need.insert(x.file);
+                        }
+                    }
+                    for f in need {
+                        if edits.get(&f).map(|e| e.is_empty()).unwrap_or(true) {
+                            problems.entry("missing-file").or_default().push(format!("no edit for {} although it contains occurrences of the symbol", p.files[f].0));
+                        }
+                    }
+                }
+                let bad_tokens = !problems.is_empty();
+                for (what, msgs) in &problems {
+                    report(what, msgs.iter().take(3).cloned().collect::<Vec<_>>().join("; "));
+                }
+                // -- apply
+                let mut new_files = p.files.clone();
+                let mut apply_err = None;
+                for (f, es) in &edits {
+                    match apply_edits(&p.files[*f].1, es) {
+                        Ok((t, dups)) => {
+                            if dups > 0 {
+                                ctx.count("rename_edits_with_identical_duplicates");
+                            }
+                            new_files[*f].1 = t;
+                        }
+                        Err(e) => apply_err = Some(e),
+                    }
+                }
+                if let Some(e) = apply_err {
+                    report("edit-wrong-token", format!("the edit cannot be applied: {}", e));
+                    continue;
+                }
+                if run.verbose {
+                    for (n, t) in &new_files {
+                        println!("---- {} after the edit ----\n{}", n, t);
+                    }
+                }
+                // -- (1) assembles without diagnostics to identical bytes
+                let asm1 = match assemble(&new_files) {
+                    Ok(a) => a,
+                    Err(pi) => {
+                        report("diagnostics", format!("assembling the edited project panics at {}", pi.site));
+                        continue;
+                    }
+                };
+                if run.verbose {
+                    println!("edited project: diagnostics {:?}\n  bytes before {:02x?}\n  bytes after  {:02x?}", asm1.diags, asm0.segs, asm1.segs);
+                }
+                if !asm1.diags.is_empty() {
+                    report("diagnostics", format!("the edited project no longer assembles: {}", asm1.diags.join(" | ")));
+                    continue;
+                }
+                if asm1.segs != asm0.segs {
+                    report(
+                        "bytes",
+                        format!(
+                            "the edited project assembles to different bytes: {:02x?} instead of {:02x?}",
+                            asm1.segs.first().map(|s| s.2.clone()).unwrap_or_default(),
+                            asm0.segs.first().map(|s| s.2.clone()).unwrap_or_default()
+                        ),
+                    );
+                    continue;
+                }
+                ctx.count("rename_edited_project_assembles_identically");
+                if bad_tokens {
+                    continue;
+                }
+                // -- (2) renaming back at the moved position restores the original texts
+                let mut same_line: Vec<&(u32, u32, u32, u32, String)> = vec![];
+                if let Some(es) = edits.get(&o.file) {
+                    for e in es {
+                        if e.0 == o.line && !same_line.contains(&e) {
+                            same_line.push(e);
+                        }
+                    }
+                }
+                same_line.sort();
+                let mut shift: i64 = 0;
+                let mut new_ch: Option<u32> = None;
+                for e in &same_line {
+                    if e.3 <= *col {
+                        shift += e.4.len() as i64 - (e.3 as i64 - e.1 as i64);
+                    } else if e.1 <= *col && e.3 >= col + len {
+                        // the edit that replaced the token: find the new name in its text
+                        let base = e.1 as i64 + shift;
+                        let k = if e.1 == *col && e.4.starts_with(new_name) { Some(0) } else { find_segment(&e.4, new_name) };
+                        if let Some(k) = k {
+                            let rel = match class {
+                                "start" => 0,
+                                "middle" => new_name.len() / 2,
+                                _ => new_name.len(),
+                            };
+                            new_ch = Some((base + k as i64 + rel as i64) as u32);
+                        }
+                    }
+                }
+                let new_ch = match new_ch {
+                    Some(c) => c,
+                    None => {
+                        ctx.count("rename_did_not_edit_the_token_under_the_cursor");
+                        (ch as i64 + shift).max(0) as u32
+                    }
+                };
+                let mut s2 = open_server(&new_files)?;
+                if !server_diags(&s2).is_empty() {
+                    // cannot happen when the in-process assembly is clean; machinery cross-check
+                    ctx.count("machinery_server_and_inprocess_diagnostics_disagree");
+                    ctx.cap("fresh server reports diagnostics for an edited project that assembles cleanly in-process");
+                }
+                let back = rename_request(&mut s2, &p.files[o.file].0, o.line, new_ch, text);
+                drop(s2);
+                let back = match back {
+                    Ok(v) => v,
+                    Err(d) => {
+                        report("not-restored", format!("renaming back `{}`->`{}` at column {}: {:?}", new_name, text, new_ch, d));
+                        continue;
+                    }
+                };
+                if run.verbose {
+                    println!("rename back `{}`->`{}` at {}:{}:{} -> {}", new_name, text, p.files[o.file].0, o.line, new_ch, back);
+                }
+                let mut restored = new_files.clone();
+                let mut problem: Option<String> = None;
+                if back.is_null() || back.get("__error").is_some() {
+                    problem = Some(format!("renaming back returned {}", back));
+                } else {
+                    match parse_workspace_edit(p, &back) {
+                        Ok(es) => {
+                            for (f, e) in &es {
+                                match apply_edits(&new_files[*f].1, e) {
+                                    Ok((t, _)) => restored[*f].1 = t,
+                                    Err(e) => problem = Some(format!("the edit of renaming back cannot be applied: {}", e)),
+                                }
+                            }
+                        }
+                        Err(e) => problem = Some(e),
+                    }
+                }
+                if problem.is_none() && restored != p.files {
+                    let mut diff = vec![];
+                    for (i, (n, t)) in restored.iter().enumerate() {
+                        for (k, (a, b)) in t.lines().zip(p.files[i].1.lines()).enumerate() {
+                            if a != b {
+                                diff.push(format!("{}:{}: `{}` instead of `{}`", n, k, a.trim(), b.trim()));
+                            }
+                        }
+                    }
+                    problem = Some(format!("texts differ: {}", diff.join(" | ")));
+                }
+                match problem {
+                    Some(pr) => report("not-restored", format!("then back to `{}` at column {}: {}", text, new_ch, pr)),
+                    None => ctx.count("rename_round_trip_restored_original"),
+                }
+            }
+        }
+    }
+    Ok(())
+}
+
+/// byte offset of `name` as a whole path segment (or alias) in `text`
+fn find_segment(text: &str, name: &str) -> Option<usize> {
+    let b = text.as_bytes();
+    let mut from = 0;
+    while let Some(k) = text[from..].find(name) {
+        let a = from + k;
+        let e = a + name.len();
+        if (a == 0 || !is_ident_char(b[a - 1])) && (e == b.len() || !is_ident_char(b[e])) {
+            return Some(a);
+        }
+        from = a + 1;
+    }
+    None
+}
+
+// ------------------------------------------------------------------------------------------
+// driver
+// ------------------------------------------------------------------------------------------
+
+fn run_program(run: &Run, spec: &Spec, c15: bool) {
+    let ctx = run.ctx;
+    let mut p = generate(spec);
+    ctx.count("programs_generated");
+    let mut s = match open_server(&p.files) {
+        Ok(s) => s,
+        Err(d) => {
+            ctx.count("programs_server_died_on_open");
+            run.finding(
+                format!("{}:open:server-died", if c15 { "rename" } else { "nav" }),
+                format!("{:?}", d),
+                json!({"spec": spec.to_json(), "files": files_json(&p.files)}),
+            );
+            return;
+        }
+    };
+    let diags = server_diags(&s);
+    if run.verbose {
+        for (n, t) in &p.files {
+            println!("---- {} ----\n{}", n, t);
+        }
+        println!("publishDiagnostics of the fresh server: {:?}", diags);
+    }
+    if !diags.is_empty() {
+        ctx.count("programs_out_of_scope_diagnostics");
+        return;
+    }
+    let asm = match assemble(&p.files) {
+        Ok(a) => a,
+        Err(pi) => {
+            ctx.count("machinery_inprocess_assembly_panicked");
+            ctx.cap(format!("in-process assembly panicked at {}", pi.site));
+            return;
+        }
+    };
+    if !asm.diags.is_empty() {
+        ctx.count("machinery_server_and_inprocess_diagnostics_disagree");
+        ctx.cap(format!("server reports no diagnostics, in-process assembly does: {:?} for {}", asm.diags, spec.to_json()));
+        return;
+    }
+    if let Err(e) = resolve(&mut p, &asm) {
+        ctx.count("machinery_layout_assumption_broken");
+        ctx.cap(format!("{} for {}", e, spec.to_json()));
+        return;
+    }
+    ctx.count("programs_in_scope");
+    ctx.count(&format!("programs_in_scope_wrap_{}", WRAPS[match spec {
+        Spec::Base { wrap, .. } => *wrap,
+        Spec::Import { wrap, .. } => *wrap,
+    }]));
+    if run.verbose {
+        println!("bytes: {:02x?}", asm.segs);
+        for d in &p.defs {
+            println!("definition `{}` ({}) at {} values {:?}", d.name, d.level, loc_str(&p.files, &def_loc(d)), d.values);
+        }
+        for o in &p.occs {
+            println!("occurrence {} {:?} level={} form={} wrap={} -> {:?}", loc_str(&p.files, &occ_loc(o)), o.role, o.level, o.form, o.wrap, o.resolved);
+        }
+    }
+    for o in &p.occs {
+        match (&o.role, &o.resolved) {
+            (Role::ByBytes(_), Resolved::Def(_)) => ctx.count("uses_identified_by_emitted_bytes"),
+            (Role::ByBytes(_), Resolved::SymmetricOnly) => ctx.count("uses_without_emitted_bytes"),
+            (Role::ByBytes(_), Resolved::Ambiguous) => ctx.count("uses_with_ambiguous_bytes"),
+            _ => {}
+        }
+    }
+    let r = if c15 { rename_checks(run, &p, &mut s, &asm) } else { nav_checks(run, &p, &mut s) };
+    if let Err(d) = r {
+        run.finding(
+            format!("{}:server-died", if c15 { "rename" } else { "nav" }),
+            format!("the server died while answering: {:?}", d),
+            json!({"spec": spec.to_json(), "files": files_json(&p.files)}),
+        );
+    }
+}
+
+pub fn run(ctx: &Ctx, replay: Option<&Value>) -> i32 {
+    let _ = crate::lspdrv::root();
+    let c15 = ctx.id == "C15";
+    if let Some(case) = replay {
+        let spec = match Spec::from_json(&case["spec"]) {
+            Some(s) => s,
+            None => {
+                eprintln!("replay case has no usable `spec`");
+                return 2;
+            }
+        };
+        let run = Run { ctx, verbose: true, filter: if case.get("request").is_some() { Some(case) } else { None }, reproduced: Default::default() };
+        run_program(&run, &spec, c15);
+        crate::lspdrv::cleanup_root();
+        let n = run.reproduced.load(std::sync::atomic::Ordering::Relaxed);
+        println!("{} replay: {} failing check(s)", ctx.id, n);
+        return if n > 0 { 1 } else { 0 };
+    }
+    let specs = catalogue(ctx.tier.is_thorough());
+    ctx.set("catalogue_size", json!(specs.len()));
+    let run = Run { ctx, verbose: false, filter: None, reproduced: Default::default() };
+    specs.par_iter().for_each(|spec| run_program(&run, spec, c15));
+    crate::lspdrv::cleanup_root();
+    ctx.set(
+        "bound",
+        json!({
+            "levels": 3, "definition_kinds": ["none", "label", "const"], "path_forms": FORMS,
+            "wrappers": if ctx.tier.is_thorough() { WRAPS.to_vec() } else { vec!["none"] },
+            "orders": ["definitions-first", "uses-first"], "imports": IMPORTS,
+            "positions": if c15 { json!(["start", "middle", "end"]) } else { json!(["first char", "last char"]) },
+            "new_names": if c15 { json!(["zz", "q (defined only in sibling scope `sib`)"]) } else { json!(null) },
+        }),
+    );
+    if c15 {
+        ctx.finish(
+            "exploration",
+            "a rename was offered at the position, a workspace edit was returned and applied (distinct program x position x new name)",
+            true,
+            &[
+                "programs are in scope only if a fresh server publishes no diagnostics for them; the rest is counted",
+                "'assembles' is judged by an in-process mos_core build with the language server's options (greedy analysis, pc $c000)",
+                "offered-but-no-edit is counted, not judged; identical duplicate edits are dropped before applying (counted)",
+                "texts are ASCII, so byte columns = UTF-16 columns",
+                "each rename runs on a fresh server; prepareRename (read-only) shares one server per program",
+            ],
+        )
+    } else {
+        ctx.finish(
+            "exploration",
+            "definition request whose expected target is identified by the assembled bytes, or references request with a non-empty answer",
+            true,
+            &[
+                "programs are in scope only if a fresh server publishes no diagnostics for them; the rest is counted",
+                "the definition a use binds to is read off the bytes of an in-process mos_core build with the server's options",
+                "occurrences for which nothing is assembled (uninvoked macro, untaken branch) and `super` tokens: symmetry between definition and references only",
+                "answers are compared as sets of (uri, range); the whole `x as y` import argument counts as one occurrence",
+                "references is queried on definitions, documentHighlight on every occurrence",
+            ],
+        )
+    }
 }
